@@ -96,10 +96,11 @@ deriving Repr, Inhabited
 def blockH (h : ImageHeaderFields) : Nat := if h.nppbv = 0 then h.nrows else h.nppbv
 def blockW (h : ImageHeaderFields) : Nat := if h.nppbh = 0 then h.ncols else h.nppbh
 
-/-- the two validations of `_construct_block_bounds` (nitf.py:222-239) -/
+/-- the two validations of `_construct_block_bounds` (nitf.py:222-239); an image with no rows or no columns is refused as well
+    (with NPPBV = 0 by the same validation, otherwise because NBPC must then be 0 and the maximum over no block offsets raises) -/
 def gridOK (h : ImageHeaderFields) : Bool :=
   decide (h.ncols ≤ blockW h * h.nbpr ∧ blockW h * h.nbpr < h.ncols + blockW h ∧
-          h.nrows ≤ blockH h * h.nbpc ∧ blockH h * h.nbpc < h.nrows + blockH h)
+          h.nrows ≤ blockH h * h.nbpc ∧ blockH h * h.nbpc < h.nrows + blockH h ∧ 0 < h.nrows ∧ 0 < h.ncols)
 
 /-- (row start, row end, col start, col end) of the block in block row `rb`, block column `cb`, pad pixels included -/
 def bnd (h : ImageHeaderFields) (rb cb : Nat) : Nat × Nat × Nat × Nat :=
@@ -433,15 +434,19 @@ def locate : List ImageHeaderFields → Nat → Option (ImageHeaderFields × Nat
   | [], _ => none
   | h :: rest, y => if y < h.nrows then some (h, y) else locate rest (y - h.nrows)
 
+/-- what the raw mosaic of a row-stacked collection shows for band `b` at row `y`, column `x` of the product image: the sample of
+    the member that holds row `y` (the fill value right of a member that is narrower than the product) -/
+def stackedSrc (hs : List ImageHeaderFields) (y x b : Nat) : Src :=
+  match locate hs y with
+  | none => Src.fill
+  | some (h, yy) => if x < h.ncols then pixelSrc h yy x b else Src.fill
+
 def collectionSrc (hs : List ImageHeaderFields) (o : ReaderOptions) (rows cols : Nat) (r c b : Nat) : Src :=
   let y := imgRow rows o r c
   let x := imgCol cols o r c
-  match locate hs y with
-  | none => Src.fill
-  | some (h, yy) =>
-    match h.cplx with
-    | none => pixelSrc h yy x b
-    | some true => Src.pair (pixelSrc h yy x 0) (pixelSrc h yy x 1)
-    | some false => Src.pair (pixelSrc h yy x 1) (pixelSrc h yy x 0)
+  match (hs.head?.getD default).cplx with
+  | none => stackedSrc hs y x b
+  | some true => Src.pair (stackedSrc hs y x 0) (stackedSrc hs y x 1)
+  | some false => Src.pair (stackedSrc hs y x 1) (stackedSrc hs y x 0)
 
 end Sarpy.Spec.NitfAssembly
